@@ -271,7 +271,12 @@ func (st *SortTable) seqSort(elem string) string {
 func (st *SortTable) mapHeaps(m *types.Map) (dom, val string) {
 	k := st.SortOf(m.Key())
 	v := st.SortOf(m.Elem())
-	key := sanitize(k) + "_" + sanitize(v)
+	// one heap per Go map type: maps of different types never alias
+	q := func(p *types.Package) string { return p.Name() }
+	key := sanitize(types.TypeString(m.Key(), q)) + "_" + sanitize(types.TypeString(m.Elem(), q))
+	if len(key) > 80 {
+		key = key[:80]
+	}
 	st.mapSorts[key] = [2]string{k, v}
 	return "MD_" + key, "MV_" + key
 }
@@ -445,6 +450,8 @@ func seqAxioms(S, E, zero string) string {
 (assert (forall ((s $S) (lo Int) (i Int) (j Int)) (! (=> (and (<= 0 lo) (<= lo i) (< i (sq_len_$S s)) (= j (+ i 1))) (= (sq_sub_$S s lo j) (sq_snoc_$S (sq_sub_$S s lo i) (sq_at_$S s i)))) :pattern ((sq_sub_$S s lo j) (sq_sub_$S s lo i)))))
 (assert (forall ((s $S) (lo Int) (hi Int) (j Int)) (! (=> (and (<= 0 lo) (< lo hi) (<= hi (sq_len_$S s)) (= j (+ lo 1))) (= (sq_sub_$S s lo hi) (sq_concat_$S (sq_snoc_$S sq_empty_$S (sq_at_$S s lo)) (sq_sub_$S s j hi)))) :pattern ((sq_sub_$S s lo hi) (sq_sub_$S s j hi)))))
 (assert (forall ((s $S) (i Int) (j Int)) (! (=> (and (<= 0 i) (< i (sq_len_$S s)) (= j (+ i 1))) (= (sq_sub_$S s i j) (sq_snoc_$S sq_empty_$S (sq_at_$S s i)))) :pattern ((sq_sub_$S s i j)))))
+(assert (forall ((s $S) (i Int) (e $E) (lo Int) (hi Int)) (! (=> (or (< i lo) (>= i hi)) (= (sq_sub_$S (sq_update_$S s i e) lo hi) (sq_sub_$S s lo hi))) :pattern ((sq_sub_$S (sq_update_$S s i e) lo hi)))))
+(assert (forall ((s $S) (i Int) (e $E) (lo Int) (hi Int)) (! (=> (and (<= lo i) (< i hi)) (= (sq_sub_$S (sq_update_$S s i e) lo hi) (sq_update_$S (sq_sub_$S s lo hi) (- i lo) e))) :pattern ((sq_sub_$S (sq_update_$S s i e) lo hi)))))
 (assert (forall ((s $S)) (! (= (sq_len_$S (sq_rev_$S s)) (sq_len_$S s)) :pattern ((sq_rev_$S s)))))
 (assert (forall ((s $S) (i Int)) (! (=> (and (<= 0 i) (< i (sq_len_$S s))) (= (sq_at_$S (sq_rev_$S s) i) (sq_at_$S s (- (- (sq_len_$S s) 1) i)))) :pattern ((sq_at_$S (sq_rev_$S s) i)))))
 (assert (forall ((n Int)) (! (=> (>= n 0) (= (sq_len_$S (sq_zeros_$S n)) n)) :pattern ((sq_zeros_$S n)))))
